@@ -48,21 +48,34 @@ func (h HelperContext) BlockWith(hc hctx.Context) (string, error) {
 		return "", fmt.Errorf("expected *Context, got %T", hc)
 	}
 
-	octx := h.compiler.ctx
-	defer func() { h.compiler.ctx = octx }()
-	h.compiler.ctx = ctx
-
 	if h.block == nil {
 		return "", fmt.Errorf("no block defined")
 	}
 
-	i, err := h.compiler.evalBlockStatement(h.block)
+	// A helper can keep its helper context and render the block when the
+	// execution that met the block is over: contentFor stores the block in
+	// the context for a later contentOf, and that context may be the parent
+	// of the contexts of many executions running at once. The evaluator of
+	// the execution that is over belongs to nobody any more and must not be
+	// changed: such a rendering gets an evaluator of its own. While the call
+	// that handed out the helper context is still being evaluated the block
+	// is part of that evaluation (nesting of calls, line of a failure).
+	ev := h.compiler
+	if ev.callDepth == 0 {
+		ev = &compiler{program: ev.program}
+	}
+
+	octx := ev.ctx
+	defer func() { ev.ctx = octx }()
+	ev.ctx = ctx
+
+	i, err := ev.evalBlockStatement(h.block)
 	if err != nil {
 		return "", err
 	}
 
 	bb := &strings.Builder{}
-	if err := h.compiler.safeWrite(bb, i); err != nil {
+	if err := ev.safeWrite(bb, i); err != nil {
 		return "", err
 	}
 
